@@ -530,6 +530,84 @@ def run_chain_search_session(st, rng, res, info):
         pos += rng.choice([0, 1, 1, 2, 3, 7, max(1, resb[1] - 2)])
     stbuf.free(); db.free(); pb.free(); hb.free(); cb.free()
 
+
+CHAIN_DICT_CORR = ("Model.HcChainDict.insertAndGetWiderMatch_dict == LZ4HC_InsertAndGetWiderMatch with dict == usingDictCtxHc called directly on a "
+                   "fresh working stream with a dictionary context prepared by LZ4_loadDictHC at a hash-chain / optimal level or at an LZ4MID level "
+                   "(cross-strategy) and attached; the dictionary context's hashTable and chainTable are read from the C state (match offset, length, "
+                   "back, working hashTable, chainTable, nextToUpdate after every call)")
+
+def run_chain_dict_session(st, rng, res, info):
+    """LZ4HC_InsertAndGetWiderMatch(dict == usingDictCtxHc) on a working stream with an attached dictionary context"""
+    import ctypes
+    from ctypes import c_int, c_void_p
+    lib = st["chainlib"]; raw = st["chainraw"]; orc = st["chain"]
+    _chain_sigs(raw)
+    raw.v_hcc_dict_init.restype = None; raw.v_hcc_dict_init.argtypes = [c_void_p, c_void_p, c_void_p, c_int, c_void_p, c_void_p, c_int]
+    raw.v_hcc_dict_init.argtypes = [c_void_p, c_void_p, c_void_p, c_int, c_int, c_void_p, c_int]
+    raw.v_hcc_search_dict.restype = None; raw.v_hcc_search_dict.argtypes = [c_void_p, c_void_p] + [c_int] * 8 + [c_void_p]
+    kind = rng.choice(["runs", "period", "text", "twosym", "selfdict", "mixed", "zerorich"])
+    dn = rng.choice([4, 5, 40, 300, 2000, 4096, 9000])
+    pn = rng.choice([40, 200, 1500, 4000])
+    whole = gens.data(rng, kind, dn + pn)
+    if rng.random() < 0.5:      # the prefix repeats parts of the dictionary
+        p0 = bytearray(whole[dn:])
+        for _ in range(rng.choice([1, 3, 8])):
+            l = rng.randrange(4, min(200, dn) + 1); a = rng.randrange(0, dn - l + 1); b = rng.randrange(0, max(1, pn - l))
+            p0[b:b + l] = whole[a:a + l]
+        whole = whole[:dn] + bytes(p0[:pn])
+    d, p = whole[:dn], whole[dn:dn + pn]
+    pn = len(p)
+    if pn < 20:
+        return
+    dlevel = rng.choice([3, 5, 9, 9, 12, 2, 2])
+    level = rng.choice([3, 9, 12])
+    work = Buf(lib.sizeofStateHC(), data=bytes(lib.sizeofStateHC())); dst = Buf(lib.sizeofStateHC(), data=bytes(lib.sizeofStateHC()))
+    db = Buf(dn, data=d); pb = Buf(pn, data=p)
+    raw.v_hcc_dict_init(work.p, dst.p, db.p, dn, dlevel, pb.p, level)
+    hb = Buf(4 * 32768); cb = Buf(2 * 65536)
+    raw.v_hcc_tables(dst.p, hb.p, cb.p)
+    orc.ask("dsinit", hx(d), hx(p), hb.bytes().hex(), cb.bytes().hex())
+    resb = (ctypes.c_int * 3)()
+    high = pn - 5
+    pos = 0; k = 0
+    while pos <= pn - 12 and k < 40:
+        k += 1
+        low = max(0, pos - rng.choice([0, 0, 1, 2, 5, 17])) if rng.random() < 0.4 else pos
+        swap = 1 if (low == pos and rng.random() < 0.3) else 0
+        pa = rng.choice([0, 1]); fav = rng.choice([0, 0, 1])
+        nb = rng.choice([1, 2, 4, 16, 64, 256])
+        longest = rng.choice([3, 3, 4, 5, 8, 18])
+        if low < pos:
+            longest = max(longest, pos - low + 1)
+        longest = min(longest, high - low) if high - low >= 3 else 3
+        if longest < 1:
+            break
+        raw.v_hcc_search_dict(work.p, pb.p, pos, low, high, longest, nb, pa, swap, fav, resb)
+        a = orc.ask("dssearch", str(pos), str(low), str(high), str(longest), str(nb), str(pa), str(swap), str(fav))
+        res["evals"] += 1
+        res["stats"]["chain_dictsearch" + ("_mid" if dlevel <= 2 else "")] += 1
+        cs = _chain_state(raw, work, hb, cb)
+        t = a.split()
+        bad = None
+        if t[0] == "undef":
+            bad = "model ran out of fuel"
+        else:
+            mm = dict(kv.split("=", 1) for kv in t[3:])
+            if [int(t[0]), int(t[1]), int(t[2])] != [resb[0], resb[1], resb[2]]:
+                bad = "match differs: model (off,len,back)=(%s,%s,%s), code (%d,%d,%d)" % (t[0], t[1], t[2], resb[0], resb[1], resb[2])
+            elif (mm["ntu"], mm["ht"], mm["ct"]) != (cs["ntu"], cs["ht"], cs["ct"]):
+                bad = "working tables differ after the search"
+        if bad:
+            res["fails"].append({"status": "corr_fail", "what": "LZ4HC_InsertAndGetWiderMatch (dictCtx) model/code disagree: " + bad,
+                                 "detail": dict(info, dict=d.hex() if dn <= 300 else "len=%d" % dn, prefix=p.hex() if pn <= 300 else "len=%d" % pn,
+                                                pos=pos, low=low, high=high, longest=longest, nb=nb, pa=pa, swap=swap, fav=fav, level=level, dlevel=dlevel)})
+            break
+        if resb[1] > longest and resb[0] > pos:       # a match reaching into the dictionary
+            res["keys"].add(key_of(whole, "dictsearch", pos, low, nb, dlevel))
+            res["stats"]["chain_dictsearch_hit"] += 1
+        pos += rng.choice([0, 1, 1, 2, 3, 7, max(1, resb[1] - 2)])
+    work.free(); dst.free(); db.free(); pb.free(); hb.free(); cb.free()
+
 def chain_gen_cases(rng, tier, scale=1.0):
     nm = int({"quick": 18, "search": 40, "thorough": 120}[tier] * scale)
     return [{"bseed": rng.randrange(1 << 48), "count": 8 if i % 9 else 1, "mode": "hcchain", "maxn": 8000 if i % 9 else 70000} for i in range(max(nm, 3))]
@@ -634,6 +712,7 @@ def run_chain_case(st, case, judge):
         chain_history(st, rng, res, {"bseed": case["bseed"], "j": j, "chain": 1}, case["maxn"], judge)
         if case["maxn"] < 20000:
             run_chain_search_session(st, rng, res, {"bseed": case["bseed"], "j": j, "chainsearch": 1})
+            run_chain_dict_session(st, rng, res, {"bseed": case["bseed"], "j": j, "chaindict": 1})
             if j % 4 == 0:
                 chain_dest_sweep(st, rng, res, {"bseed": case["bseed"], "j": j, "chainsweep": 1}, judge)
     return finish(res, "hcchain")
